@@ -578,7 +578,7 @@ def run(repo, outdir):
     os.makedirs(outdir, exist_ok=True)
     sections = list(SECTIONS)
     # further sections live in their own modules (added as the framework grew)
-    for extra in ('gen_cli', 'gen_misc', 'gen_own'):
+    for extra in ('gen_cli', 'gen_misc', 'gen_own', 'gen_heap'):
         try:
             m = import_module(extra)
         except ImportError:
